@@ -12,7 +12,7 @@ Definition case := (nat * dialect * universe * option doc)%type.
 Definition cid (c : case) : nat := fst (fst (fst c)).
 (* the model's verdict on the command, with the modelled fragment of the library validators *)
 Definition model_out (v : dialect) (u : universe) : option doc :=
-  match cmd lib_model_ok v u with Wrote d => Some d | Failed => None end.
+  match cmd (lib_model_ok_v v) v u with Wrote d => Some d | Failed => None end.
 (* C07 projection: components.schemas *)
 Definition agrees_comps (c : case) : bool :=
   let '(_, v, u, o) := c in
